@@ -63,6 +63,7 @@ type runtime struct {
 	debugger     func(*Otto)
 	random       func() float64
 	labels       []string
+	halting      bool // an interrupt function panicked: no try statement catches that
 	stackLimit   int
 	traceLimit   int
 	lck          sync.Mutex
@@ -123,6 +124,10 @@ func (rt *runtime) tryCatchEvaluate(inner func() Value) (tryValue Value, isExcep
 	// other = Something that changes flow (return, break, continue) that is not a throw
 	// Otherwise, some sort of unknown panic happened, we'll just propagate it.
 	defer func() {
+		if rt.halting {
+			// The panic of an interrupt function is on its way to the caller of Run.
+			return
+		}
 		if caught := recover(); caught != nil {
 			if excep, ok := caught.(*exception); ok {
 				caught = excep.eject()
@@ -142,6 +147,16 @@ func (rt *runtime) tryCatchEvaluate(inner func() Value) (tryValue Value, isExcep
 	}()
 
 	return inner(), false
+}
+
+// interrupt runs a function received on the Interrupt channel. When it panics, that is meant to
+// end the running script (see "Halting Problem" in the README): the script's try statements must
+// not catch it, or `for (;;) { try { ... } catch (e) {} }` could never be stopped.
+func (rt *runtime) interrupt(function func()) {
+	halting := true
+	defer func() { rt.halting = halting }()
+	function()
+	halting = false
 }
 
 func (rt *runtime) toObject(value Value) *object {
